@@ -124,13 +124,13 @@ def make_call(cls, k):
         # have registered a moment ago
         from measured import Length, Time, Mass
         from measured.si import Kilogram
-        if cls == "DimChain":
-            n_ = 100 + k
-            exps = None
-            return (lambda: Length ** n_ * Time ** n_ * Mass), lambda: len([d for d in Dimension._known.values() if getattr(d, "exponents", None) == (Length ** n_ * Time ** n_ * Mass).exponents])
         n_ = 100 + k
+        if cls == "DimChain":
+            da, db = Length ** n_, Time ** n_          # operands built beforehand: the threads start at the first new product
+            return (lambda: da * db * Mass), lambda: len([d for d in Dimension._known.values() if getattr(d, "exponents", None) == (da * db * Mass).exponents])
+        ua, ub = Meter ** n_, Second ** n_
         f = {Meter: n_, Second: n_, Kilogram: 1}
-        return (lambda: Meter ** n_ * Second ** n_ * Kilogram), lambda: len([u for u in Unit._known.values() if getattr(u, "factors", None) == f and u.prefix is IdentityPrefix])
+        return (lambda: ua * ub * Kilogram), lambda: len([u for u in Unit._known.values() if getattr(u, "factors", None) == f and u.prefix is IdentityPrefix])
     if cls in ("UnitMulOrders", "UnitDivOrders"):
         # different expressions denoting one new unit, evaluated at the same time: a*b | b*a, a/b | b**-1 * a
         base1 = Dimension._by_name["length"].unit(f"vfo{k}a", f"vfo{k}a"); base2 = Dimension._by_name["time"].unit(f"vfo{k}b", f"vfo{k}b")
